@@ -425,8 +425,11 @@ def run_once(job, target, variant, keep_alloc=False, limit=5.0):
     del sentinels, ctx
     alive = sum(1 for w in wr if w() is not None)
     if alive:
-        gc.collect()
+        gc.collect(1)      # the render's objects are young: a young-generation pass usually suffices
         alive = sum(1 for w in wr if w() is not None)
+        if alive:
+            gc.collect()
+            alive = sum(1 for w in wr if w() is not None)
     obs["alive"] = alive
     obs["tables"] = table_keys()
     return obs
